@@ -10,13 +10,15 @@
     server.go    NewServer (initial settings), Initialize (initializationOptions, capability
                  gating, supportsConfiguration), Initialized (spawns a refresh),
                  shouldIncludeDiagnostic, the places where a setting is read
+    feature_gate.go  requestFeature, FeatureGate (chained in cmd/hledger-lsp/main.go)
     include/loader.go  DefaultLimits, normalizeLimits, SetLimits (the cache is emptied when the
                  limits change), the size check of loadSingleInclude on the probe's chain
 
   The model describes the tree AFTER the `fix:` commits for the findings
   wrapper-shadows-siblings, unbounded-width-panics, limits-skip-cached-includes,
-  refresh-out-of-order and push-ignored; the pinned behaviour is kept in the definitions
-  marked PINNED (`normalizePinned`, `parseSettingsFromRawPinned`, `SrvP`/`stepP`) for the
+  refresh-out-of-order, push-ignored and feature-switch-after-init; the pinned behaviour is
+  kept in the definitions marked PINNED (`normalizePinned`, `parseSettingsFromRawPinned`,
+  `SrvP`/`stepP`, `respondPinned`) for the
   `pinned_*_counterexample` theorems of HL.Props.C19.
 
   JSON values are modelled *as the Go code sees them*: the payload has already been decoded by
@@ -765,6 +767,105 @@ def shouldIncludeDiagnostic (code : String) (d : Diagnostics) : Bool :=
   else if code = "UNDECLARED_COMMODITY" then d.undeclaredCommodities
   else if code = "UNBALANCED" || code = "MULTIPLE_INFERRED" then d.unbalancedTransactions
   else true
+
+/-! ## The feature switches and the requests they govern
+
+  Every switch of `featureSettings` governs one family of requests (diagnostics: the
+  publication that follows a change of a document).  Eight of them are enforced where the
+  requests enter the server: `Server.FeatureGate` (feature_gate.go), the jsonrpc2 middleware
+  that cmd/hledger-lsp/main.go chains in front of the protocol dispatcher (regenerated facts
+  `handlerChain`, `featureGateTable`; expectations in HL/Generated/Expect/FeatureGate.lean).
+  It looks the request's method up in `requestFeature` and, when the switch is off in the
+  settings stored AT THE TIME OF THE REQUEST (`s.getSettings().Features`), replies `null`
+  without calling the handler; everything else is handed on.  The two remaining switches are
+  read by the code they govern: `publishDiagnosticsVersion` publishes the empty list,
+  `InlineCompletion` returns the empty list.  What `Initialize` advertised plays no part. -/
+
+inductive Feature where
+  | hover | completion | formatting | diagnostics | semanticTokens | codeActions
+  | foldingRanges | documentLinks | workspaceSymbol | inlineCompletion
+  deriving DecidableEq, Repr
+
+def Feature.all : List Feature :=
+  [.hover, .completion, .formatting, .diagnostics, .semanticTokens, .codeActions,
+   .foldingRanges, .documentLinks, .workspaceSymbol, .inlineCompletion]
+
+/-- the field of `serverSettings.Features` that holds the switch -/
+def Feature.leaf : Feature → Leaf
+  | .hover => .fHover | .completion => .fCompletion | .formatting => .fFormatting
+  | .diagnostics => .fDiagnostics | .semanticTokens => .fSemanticTokens
+  | .codeActions => .fCodeActions | .foldingRanges => .fFoldingRanges
+  | .documentLinks => .fDocumentLinks | .workspaceSymbol => .fWorkspaceSymbol
+  | .inlineCompletion => .fInlineCompletion
+
+/-- name of the Go field of `featureSettings` -/
+def Feature.goField : Feature → String
+  | .hover => "Hover" | .completion => "Completion" | .formatting => "Formatting"
+  | .diagnostics => "Diagnostics" | .semanticTokens => "SemanticTokens"
+  | .codeActions => "CodeActions" | .foldingRanges => "FoldingRanges"
+  | .documentLinks => "DocumentLinks" | .workspaceSymbol => "WorkspaceSymbol"
+  | .inlineCompletion => "InlineCompletion"
+
+/-- `settings.Features.X` -/
+def featureOn (s : Settings) : Feature → Bool
+  | .hover => s.features.hover | .completion => s.features.completion
+  | .formatting => s.features.formatting | .diagnostics => s.features.diagnostics
+  | .semanticTokens => s.features.semanticTokens | .codeActions => s.features.codeActions
+  | .foldingRanges => s.features.foldingRanges | .documentLinks => s.features.documentLinks
+  | .workspaceSymbol => s.features.workspaceSymbol
+  | .inlineCompletion => s.features.inlineCompletion
+
+/-- `requestFeature` (feature_gate.go), in source order: request method ↦ the switch that
+    governs it.  Compared with the source through the regenerated fact `featureGateTable`. -/
+def requestFeature : List (String × Feature) := [
+  ("textDocument/hover", .hover), ("textDocument/completion", .completion),
+  ("textDocument/formatting", .formatting),
+  ("textDocument/semanticTokens/full", .semanticTokens),
+  ("textDocument/semanticTokens/full/delta", .semanticTokens),
+  ("textDocument/semanticTokens/range", .semanticTokens),
+  ("textDocument/codeAction", .codeActions), ("textDocument/foldingRange", .foldingRanges),
+  ("textDocument/documentLink", .documentLinks), ("workspace/symbol", .workspaceSymbol)]
+
+/-- `requestFeature[req.Method()]` -/
+def featureOfMethod (method : String) : List (String × Feature) → Option Feature
+  | [] => none
+  | (m, f) :: r => if m = method then some f else featureOfMethod method r
+
+/-- `Server.FeatureGate`: is the request handed to `next`? -/
+def gatePasses (σ : Srv) (method : String) : Bool :=
+  match featureOfMethod method requestFeature with
+  | some f => featureOn σ.settings f
+  | none => true
+
+/-- What the client receives for the request `method` when the handler behind the gate would
+    answer `full`: `none` is the `null` the gate replies itself. -/
+def dispatch {α : Type} (σ : Srv) (method : String) (full : α) : Option α :=
+  if gatePasses σ method then some full else none
+
+/-- The answer to a request of feature `f` in state `σ`, for all ten features alike: the
+    switch as stored now decides between what the handler computes (`full` — the subject of
+    the other properties, uninterpreted here) and the empty answer of that family (`empty`:
+    `null` from the gate, the empty publication, the empty list of inline completions). -/
+def respond {α : Type} (σ : Srv) (f : Feature) (full empty : α) : α :=
+  if featureOn σ.settings f then full else empty
+
+/-- PINNED tree (finding `feature-switch-after-init`, repaired): no gate; only the diagnostics
+    task and the inline-completion handler look at their switch, every other request is
+    answered whatever the settings say — `Initialize` alone read those switches, for the
+    capabilities. -/
+def respondPinned {α : Type} (σ : Srv) (f : Feature) (full empty : α) : α :=
+  match f with
+  | .diagnostics | .inlineCompletion => if featureOn σ.settings f then full else empty
+  | _ => full
+
+/-- what `Initialize` advertised for a feature (diagnostics have no capability) -/
+def Caps.advertises (c : Caps) : Feature → Option Bool
+  | .hover => some c.hoverProvider | .completion => some c.completionProvider
+  | .formatting => some c.documentFormattingProvider | .diagnostics => none
+  | .semanticTokens => some c.semanticTokensProvider | .codeActions => some c.codeActionProvider
+  | .foldingRanges => some c.foldingRangeProvider | .documentLinks => some c.documentLinkProvider
+  | .workspaceSymbol => some c.workspaceSymbolProvider
+  | .inlineCompletion => some c.inlineCompletionProvider
 
 /-- `include.normalizeLimits`, applied by `Loader.SetLimits` -/
 def normalizeLimits (l : Limits) : Limits :=
